@@ -144,6 +144,8 @@ def run(ctx):
     from ..mirlib import load as _load, guarding_branches as _gb, callee_key as _ck
     from . import shared_mir as _sm
     _mir = _load()
+    from . import shared_mir as _sm
+    _sm.clause_directive_after_token(r, _mir)
     he = _mir.fn("Dispatcher::handle_end_tag_hint[TagHintSink]")
     ors = [bi for bi, t in he.calls(r"bitor_assign|BitOr|TokenCaptureFlags::union|insert$")]
     r.inst("end_tag_hint|flag-guard", sample={"flag_additions": len(ors)})
